@@ -324,9 +324,10 @@ proof fn lemma_unchanged(a: Seq<TypeNode>, b: Seq<TypeNode>)
     ensures
         same_graph(a, b), tview(b) == tview(a), ids_closed(a) ==> ids_closed(b), sizes_inv(a) ==> sizes_inv(b),
         forall|o: Seq<TypeNode>| #[trigger] same_graph(o, a) ==> same_graph(o, b),
-        merges_from(a, b),
+        merges_from(a, b), cons_from(a, b),
 {
     assert(same_graph(a, b));
+    lemma_cons_same_graph(a, b);
     assert(merges_only(a, b)) by { assert forall|i: int, j: int| 0 <= i < a.len() && 0 <= j < a.len() && rep0(a, i) == rep0(a, j) implies #[trigger] rep0(b, i) == #[trigger] rep0(b, j) by { assert(rep0(b, i) == rep0(a, i)); assert(rep0(b, j) == rep0(a, j)); } }
     lemma_merges_from(a, b);
     lemma_same_graph(a, b);
@@ -588,6 +589,40 @@ broadcast use vstd::std_specs::btree::group_btree_axioms;
 #[verifier::external_body]
 proof fn axiom_constraint_key_order() ensures vstd::std_specs::btree::key_obeys_cmp_spec::<Constraint>() {}
 
+/// deferred constraints are never dropped: whatever was recorded on (the class of) an id is still
+/// recorded on its class
+spec fn cons_mono(a: Seq<TypeNode>, b: Seq<TypeNode>) -> bool {
+    &&& a.len() <= b.len()
+    &&& forall|i: int, c: Constraint| 0 <= i < a.len() && #[trigger] cons_of(a, i).contains(c) ==> cons_of(b, i).contains(c)
+}
+spec fn cons_from(a: Seq<TypeNode>, b: Seq<TypeNode>) -> bool {
+    forall|o: Seq<TypeNode>| #[trigger] cons_mono(o, a) ==> cons_mono(o, b)
+}
+proof fn lemma_cons_refl(a: Seq<TypeNode>) ensures cons_mono(a, a) {}
+proof fn lemma_cons_from(a: Seq<TypeNode>, b: Seq<TypeNode>)
+    requires cons_mono(a, b),
+    ensures cons_from(a, b),
+{
+    assert forall|o: Seq<TypeNode>| #[trigger] cons_mono(o, a) implies cons_mono(o, b) by {
+        assert forall|i: int, c: Constraint| 0 <= i < o.len() && #[trigger] cons_of(o, i).contains(c) implies cons_of(b, i).contains(c) by {
+            assert(cons_of(a, i).contains(c));
+        }
+    }
+}
+/// a step that keeps partition and payload keeps every recorded constraint
+proof fn lemma_cons_same_graph(a: Seq<TypeNode>, b: Seq<TypeNode>)
+    requires same_graph(a, b), wf_forest(a),
+    ensures cons_from(a, b),
+{
+    assert(cons_mono(a, b)) by {
+        assert forall|i: int, c: Constraint| 0 <= i < a.len() && #[trigger] cons_of(a, i).contains(c) implies cons_of(b, i).contains(c) by {
+            assert(rep0(b, i) == rep0(a, i));
+            lemma_rep0_props(a, i);
+            assert(b[rep0(a, i)].constraints == a[rep0(a, i)].constraints);
+        }
+    }
+    lemma_cons_from(a, b);
+}
 /// same partition and same class types (constraints may differ)
 spec fn same_partition_and_types(a: Seq<TypeNode>, b: Seq<TypeNode>) -> bool {
     &&& a.len() == b.len()
@@ -640,6 +675,34 @@ spec fn s_brk(s: Statement, l: bool) -> bool decreases s {
         Statement::Ret { value, .. } => match value { Some(v) => e_brk(v, l), None => true },
         Statement::Block { statements, .. } => forall|i: int| 0 <= i < statements.len() ==> s_brk(#[trigger] statements[i], l),
         Statement::StatementExpression { value, .. } => e_brk(value, l),
+    }
+}
+/// the deferred constraint a binary operator records on BOTH operand classes (each mentions the other)
+/// what type checking an operator expression leaves behind in the constraint store (for every
+/// initial store: so a forgotten or misplaced add_constraint fails the clause). The ids are the
+/// operands' type ids, which the function does not return; they are existentially quantified.
+spec fn op_recorded(ts: Seq<TypeNode>, e: Expression, result: TyID) -> bool {
+    match e {
+        Expression::BinOp { op, .. } => match op {
+            BinOp::Div => exists|a: TyID, b: TyID, c: TyID| (a.0 as int) < ts.len() && (b.0 as int) < ts.len() && (c.0 as int) < ts.len()
+                && #[trigger] cons_of(ts, a.0 as int).contains(Constraint::DivTop(b)) && #[trigger] cons_of(ts, b.0 as int).contains(Constraint::DivBot(a))
+                && #[trigger] cons_of(ts, c.0 as int).contains(Constraint::DivRes(a)),
+            BinOp::And | BinOp::Or | BinOp::Nop => true,
+            BinOp::Add => exists|a: TyID, b: TyID| (a.0 as int) < ts.len() && (b.0 as int) < ts.len()
+                && #[trigger] cons_of(ts, a.0 as int).contains(Constraint::Add(b)) && #[trigger] cons_of(ts, b.0 as int).contains(Constraint::Add(a)),
+            BinOp::Sub => exists|a: TyID, b: TyID| (a.0 as int) < ts.len() && (b.0 as int) < ts.len()
+                && #[trigger] cons_of(ts, a.0 as int).contains(Constraint::Sub(b)) && #[trigger] cons_of(ts, b.0 as int).contains(Constraint::Sub(a)),
+            BinOp::Mul => exists|a: TyID, b: TyID| (a.0 as int) < ts.len() && (b.0 as int) < ts.len()
+                && #[trigger] cons_of(ts, a.0 as int).contains(Constraint::Mul(b)) && #[trigger] cons_of(ts, b.0 as int).contains(Constraint::Mul(a)),
+            BinOp::Equals | BinOp::AssertEq | BinOp::NotEquals => exists|a: TyID, b: TyID| (a.0 as int) < ts.len() && (b.0 as int) < ts.len()
+                && #[trigger] cons_of(ts, a.0 as int).contains(Constraint::Equ(b)) && #[trigger] cons_of(ts, b.0 as int).contains(Constraint::Equ(a)),
+            BinOp::Greater | BinOp::Less => exists|a: TyID, b: TyID| (a.0 as int) < ts.len() && (b.0 as int) < ts.len()
+                && #[trigger] cons_of(ts, a.0 as int).contains(Constraint::Cmp(b)) && #[trigger] cons_of(ts, b.0 as int).contains(Constraint::Cmp(a)),
+            BinOp::GreaterEqual | BinOp::LessEqual => exists|a: TyID, b: TyID| (a.0 as int) < ts.len() && (b.0 as int) < ts.len()
+                && #[trigger] cons_of(ts, a.0 as int).contains(Constraint::CmpEqu(b)) && #[trigger] cons_of(ts, b.0 as int).contains(Constraint::CmpEqu(a)),
+        },
+        Expression::UniOp { op, .. } => op is Neg ==> exists|x: TyID| (x.0 as int) < ts.len() && #[trigger] cons_of(ts, x.0 as int).contains(Constraint::Neg),
+        _ => true,
     }
 }
 /// one-level (non-recursive) view of the two structural rules, used by `expression`, which hides the
@@ -900,7 +963,7 @@ impl TypeChecker {
     spec fn inv2(&self) -> bool { self.inv() && self.vars_valid() }
     /// the frame every checker function obeys: the graph only grows, the variable table is fixed
     spec fn grows(&self, old: &TypeChecker) -> bool {
-        self.types@.len() >= old.types@.len() && self.variables == old.variables && merges_from(old.types@, self.types@)
+        self.types@.len() >= old.types@.len() && self.variables == old.variables && merges_from(old.types@, self.types@) && cons_from(old.types@, self.types@)
     }
 
 //@ fn sylt-compiler/src/typechecker.rs push_type
@@ -918,11 +981,12 @@ impl TypeChecker {
             final(self).types@.len() == old(self).types@.len() + 1, //# C02,C07 push_type.spec.aux3
             push_frame(old(self).types@, final(self).types@, ty), //# C02 push_type.appends_one_singleton_class_and_touches_nothing_else
             merges_from(old(self).types@, final(self).types@), //# C02 push_type.classes_only_merge
+            cons_from(old(self).types@, final(self).types@), //# C02 push_type.no_constraint_dropped
             final(self).variables == old(self).variables, //# C07 push_type.spec.aux4
 //@   endspec
 //@   ghost after
 //@|         });
-            proof { lemma_push(old(self).types@, self.types@); reveal(push_frame); lemma_push_merges(old(self).types@, self.types@); }
+            proof { lemma_push(old(self).types@, self.types@); reveal(push_frame); lemma_push_merges(old(self).types@, self.types@); lemma_push_cons(old(self).types@, self.types@); }
 //@   endghost
 //@ end
 
@@ -948,6 +1012,7 @@ impl TypeChecker {
             forall|o: Seq<TypeNode>| #[trigger] same_graph(o, old(self).types@) ==> same_graph(o, final(self).types@), //# C02,C07 find.spec.aux4
             tview(final(self).types@) == tview(old(self).types@), //# C02 find.view_unchanged
             merges_from(old(self).types@, final(self).types@), //# C02 find.classes_only_merge
+            cons_from(old(self).types@, final(self).types@), //# C02 find.no_constraint_dropped
             final(self).variables == old(self).variables, //# C02 find.frame_variables
             (res.0 as int) < final(self).types.len(), //# C07 find.result_in_range
             final(self).types@[res.0 as int].parent is None, //# C02 find.result_is_root
@@ -1024,6 +1089,7 @@ impl TypeChecker {
             forall|o: Seq<TypeNode>| #[trigger] same_graph(o, old(self).types@) ==> same_graph(o, final(self).types@), //# C02,C07 find_node.spec.aux5
             tview(final(self).types@) == tview(old(self).types@), //# C02 find_node.view_unchanged
             merges_from(old(self).types@, final(self).types@), //# C02 find_node.classes_only_merge
+            cons_from(old(self).types@, final(self).types@), //# C02 find_node.no_constraint_dropped
             final(self).variables == old(self).variables, //# C02 find_node.frame_variables
             *r == final(self).types@[rep0(old(self).types@, a.0 as int)], //# C02 find_node.returns_root_node
             r.ty == ty_of(old(self).types@, a), //# C02,C07 find_node.spec.aux6
@@ -1050,6 +1116,7 @@ impl TypeChecker {
             forall|o: Seq<TypeNode>| #[trigger] same_graph(o, old(self).types@) ==> same_graph(o, final(self).types@), //# C02,C07 find_type.spec.aux5
             tview(final(self).types@) == tview(old(self).types@), //# C02 find_type.view_unchanged
             merges_from(old(self).types@, final(self).types@), //# C02 find_type.classes_only_merge
+            cons_from(old(self).types@, final(self).types@), //# C02 find_type.no_constraint_dropped
             final(self).variables == old(self).variables, //# C02 find_type.frame_variables
             r == ty_of(old(self).types@, a), //# C02 find_type.returns_class_type
             r == tview(old(self).types@)[a.0 as int], //# C02,C07 find_type.spec.aux6
@@ -1077,6 +1144,7 @@ impl TypeChecker {
             forall|o: Seq<TypeNode>| #[trigger] same_graph(o, old(self).types@) ==> same_graph(o, final(self).types@), //# C02,C07 is_void.spec.aux6
             tview(final(self).types@) == tview(old(self).types@), //# C02 is_void.view_unchanged
             merges_from(old(self).types@, final(self).types@), //# C02 is_void.classes_only_merge
+            cons_from(old(self).types@, final(self).types@), //# C02 is_void.no_constraint_dropped
             final(self).variables == old(self).variables, //# C02 is_void.frame_variables
             r == (ty_of(old(self).types@, a) is Void), //# C03 is_void.exact
 //@   endspec
@@ -1395,6 +1463,7 @@ impl TypeChecker {
                 && rep0(old(self).types@, i) != rep0(old(self).types@, b.0 as int)
                 ==> #[trigger] cons_of(final(self).types@, i) == cons_of(old(self).types@, i), //# C02,C03 union.other_classes_keep_constraints
             merges_from(old(self).types@, final(self).types@), //# C02 union.classes_only_merge
+            cons_from(old(self).types@, final(self).types@), //# C02,C03 union.no_constraint_dropped
             rep0(final(self).types@, a.0 as int) == rep0(final(self).types@, b.0 as int), //# C02,C03 union.the_two_ids_end_up_in_one_class
             final(self).variables == old(self).variables, //# C07 union.spec.aux2
 //@   endspec
@@ -1551,6 +1620,7 @@ impl TypeChecker {
             r is Ok ==> final(self).valid(r->Ok_0.1) && (r->Ok_0.0 is Some ==> final(self).valid(r->Ok_0.0->Some_0)), //# C07 expression.result_ids_in_range
             r is Ok ==> e_brk(*expression, ctx.inside_loop), //# C05 expression.break_only_inside_a_loop_of_the_same_function
             r is Ok ==> e_pur(old(self).variables@, *expression, ctx.inside_pure), //# C04 expression.pure_functions_stay_pure_at_any_depth
+            r is Ok ==> op_recorded(final(self).types@, *expression, r->Ok_0.1), //# C02,C03 expression.operators_record_their_constraint_on_both_operands
 //@   endspec
 //@   ghost entry
         hide(wf_forest); hide(ids_closed); hide(TypeChecker::vars_valid);
@@ -1764,6 +1834,7 @@ impl TypeChecker {
         ensures final(self).inv2(), final(self).grows(old(self)), //# C02 add_constraint.keeps_invariant
             same_partition_and_types(old(self).types@, final(self).types@), //# C02 add_constraint.only_constraints_change
             cons_of(final(self).types@, a.0 as int) == cons_of(old(self).types@, a.0 as int).insert(constraint), //# C02 add_constraint.records_the_constraint_on_the_class
+            cons_of(final(self).types@, a.0 as int).contains(constraint) && cons_mono(final(self).types@, final(self).types@), // (the seed terms of the no-constraint-dropped chain for what was just recorded)
             forall|i: int| 0 <= i < old(self).types@.len() && rep0(old(self).types@, i) != rep0(old(self).types@, a.0 as int)
                 ==> #[trigger] cons_of(final(self).types@, i) == cons_of(old(self).types@, i), //# C02 add_constraint.other_classes_untouched
 //@   endspec
@@ -1821,6 +1892,7 @@ impl TypeChecker {
                 && forall|i: int| 0 <= i < old(self).types@.len() ==> #[trigger] rep0(final(self).types@, i) == rep0(old(self).types@, i), //# C02 find_node_mut.partition_unchanged_if_parent_untouched
             final(r).parent is None && final(r).size == r.size && sizes_inv(old(self).types@) ==> sizes_inv(final(self).types@), //# C02 find_node_mut.sizes_kept_if_size_untouched
             final(r).parent is None ==> merges_from(old(self).types@, final(self).types@), //# C02 find_node_mut.classes_only_merge
+            final(r).parent is None && final(r).constraints == r.constraints ==> cons_from(old(self).types@, final(self).types@), //# C02 find_node_mut.no_constraint_dropped_if_constraints_untouched
             final(self).variables == old(self).variables, //# C07 find_node_mut.spec.aux3
 //@   endspec
 //@   ghost entry
@@ -1837,7 +1909,8 @@ impl TypeChecker {
             assert forall|n: TypeNode| n.parent is None implies wf_forest(#[trigger] mid.update(ta as int, n))
                 && (forall|i: int| 0 <= i < ts0.len() ==> #[trigger] rep0(mid.update(ta as int, n), i) == rep0(ts0, i))
                 && (n.size == mid[ta as int].size && sizes_inv(ts0) ==> sizes_inv(mid.update(ta as int, n)))
-                && merges_from(ts0, mid.update(ta as int, n)) by {
+                && merges_from(ts0, mid.update(ta as int, n))
+                && (n.constraints == mid[ta as int].constraints ==> cons_from(ts0, mid.update(ta as int, n))) by {
                 let upd = mid.update(ta as int, n);
                 lemma_parents_same(mid, upd);
                 if n.size == mid[ta as int].size && sizes_inv(ts0) { lemma_sum_same(mid, upd, mid.len() as int); }
@@ -1848,6 +1921,16 @@ impl TypeChecker {
                     }
                 }
                 lemma_merges_from(ts0, upd);
+                if n.constraints == mid[ta as int].constraints {
+                    assert(cons_mono(ts0, upd)) by {
+                        assert forall|i: int, c: Constraint| 0 <= i < ts0.len() && #[trigger] cons_of(ts0, i).contains(c) implies cons_of(upd, i).contains(c) by {
+                            lemma_rep0_props(ts0, i);
+                            assert(rep0(upd, i) == rep0(mid, i)); assert(rep0(mid, i) == rep0(ts0, i));
+                            assert(mid[rep0(ts0, i)].constraints == ts0[rep0(ts0, i)].constraints);
+                        }
+                    }
+                    lemma_cons_from(ts0, upd);
+                }
                 assert forall|i: int| 0 <= i < ts0.len() implies #[trigger] rep0(upd, i) == rep0(ts0, i) by {
                     assert(rep0(upd, i) == rep0(mid, i));
                     assert(rep0(mid, i) == rep0(ts0, i));
@@ -2164,7 +2247,7 @@ proof fn lemma_union_noop(ts0: Seq<TypeNode>, ts2: Seq<TypeNode>, a0: int, b0: i
         rep0(ts0, a0) == rep0(ts0, b0),
     ensures
         ids_closed(ts2), sizes_inv(ts0) ==> sizes_inv(ts2),
-        merges_from(ts0, ts2), rep0(ts2, a0) == rep0(ts2, b0),
+        merges_from(ts0, ts2), rep0(ts2, a0) == rep0(ts2, b0), cons_from(ts0, ts2),
         merged_into(ts0, ts2, rep0(ts0, a0), rep0(ts0, b0), rep0(ts0, a0)),
         forall|i: int| 0 <= i < ts0.len() ==> #[trigger] cons_of(ts2, i) == cons_of(ts0, i),
         forall|i: int| 0 <= i < ts0.len() ==> (#[trigger] ts2[i]).ty == ts0[i].ty,
@@ -2172,6 +2255,7 @@ proof fn lemma_union_noop(ts0: Seq<TypeNode>, ts2: Seq<TypeNode>, a0: int, b0: i
     lemma_same_graph(ts0, ts2);
     lemma_same_roots(ts0, ts2);
     lemma_unchanged_from_same_graph(ts0, ts2);
+    lemma_cons_same_graph(ts0, ts2);
     assert(rep0(ts2, a0) == rep0(ts0, a0)); assert(rep0(ts2, b0) == rep0(ts0, b0));
     assert forall|i: int| 0 <= i < ts0.len() implies #[trigger] cons_of(ts2, i) == cons_of(ts0, i) by {
         lemma_rep0_props(ts0, i);
@@ -2225,7 +2309,7 @@ proof fn lemma_union_final(ts0: Seq<TypeNode>, ts2: Seq<TypeNode>, ts3: Seq<Type
             ts3[w as int].constraints@.dom().contains(c) || ts3[l as int].constraints@.dom().contains(c),
     ensures
         wf_forest(ts4), ids_closed(ts4), sizes_inv(ts4),
-        merges_from(ts0, ts4), rep0(ts4, a0) == rep0(ts4, b0),
+        merges_from(ts0, ts4), rep0(ts4, a0) == rep0(ts4, b0), cons_from(ts0, ts4),
         forall|i: int| 0 <= i < ts0.len() ==> (#[trigger] ts4[i]).ty == ts0[i].ty,
         merged_into(ts0, ts4, rep0(ts0, a0), rep0(ts0, b0), w as int),
         forall|c: Constraint| #[trigger] cons_of(ts4, a0).contains(c) <==> cons_of(ts0, a0).contains(c) || cons_of(ts0, b0).contains(c),
@@ -2271,6 +2355,19 @@ proof fn lemma_union_final(ts0: Seq<TypeNode>, ts2: Seq<TypeNode>, ts3: Seq<Type
         assert(ts3[r].constraints == ts2[r].constraints);
         assert(ts2[r].constraints == ts0[r].constraints);
     }
+    assert(cons_mono(ts0, ts4)) by {
+        assert forall|i: int, c: Constraint| 0 <= i < ts0.len() && #[trigger] cons_of(ts0, i).contains(c) implies cons_of(ts4, i).contains(c) by {
+            lemma_rep0_props(ts0, i);
+            if rep0(ts0, i) == rep0(ts0, a0) || rep0(ts0, i) == rep0(ts0, b0) {
+                assert(rep0(ts4, i) == w as int);
+                assert(cons_of(ts4, i) == ts4[w as int].constraints@.dom());
+                assert(ts4[w as int].constraints@.dom().contains(c));
+            } else {
+                assert(cons_of(ts4, i) == cons_of(ts0, i));
+            }
+        }
+    }
+    lemma_cons_from(ts0, ts4);
 }
 
 proof fn lemma_push(ts: Seq<TypeNode>, ts2: Seq<TypeNode>)
@@ -2313,6 +2410,20 @@ proof fn lemma_push_merges(ts: Seq<TypeNode>, ts2: Seq<TypeNode>)
         }
     }
     lemma_merges_from(ts, ts2);
+}
+proof fn lemma_push_cons(ts: Seq<TypeNode>, ts2: Seq<TypeNode>)
+    requires wf_forest(ts), ts2.len() == ts.len() + 1, forall|i: int| 0 <= i < ts.len() ==> ts2[i] == ts[i],
+        forall|i: int| 0 <= i < ts.len() ==> rep0(ts2, i) == rep0(ts, i),
+    ensures cons_from(ts, ts2),
+{
+    assert(cons_mono(ts, ts2)) by {
+        assert forall|i: int, c: Constraint| 0 <= i < ts.len() && #[trigger] cons_of(ts, i).contains(c) implies cons_of(ts2, i).contains(c) by {
+            lemma_rep0_props(ts, i);
+            assert(rep0(ts2, i) == rep0(ts, i));
+            assert(ts2[rep0(ts, i)] == ts[rep0(ts, i)]);
+        }
+    }
+    lemma_cons_from(ts, ts2);
 }
 /// the sum over a common prefix of two sequences is the same
 proof fn lemma_sum_prefix(a: Seq<TypeNode>, b: Seq<TypeNode>, n: int)
